@@ -68,6 +68,21 @@ def run_case(case, workdir):
                     rec.fail("raised", sub, exc_text(val))
                 elif not bool(val):
                     rec.fail("rejected", sub, "bool(Taster) is False on a well-formed plotfile")
+    # the default verbosity (what the command line uses) and the chatty one run other code: same verdict demanded
+    for (bh, bs, bd, bc) in (OPTS if (dh % 4 == 0 or case.get("schedules")) else []):
+        if bd and desc["payload"] == "hostile":
+            continue
+        for verbose in (None, 2):
+            sub = {"limit_level": None, "binary_headers": bh, "binary_shape": bs, "binary_data": bd, "boxes_coordinates": bc,
+                   "nofail": bool(bh), "verbose": verbose}
+            with vpool.controlled() as ctl:
+                st, val = call(lambda: Taster(path, binary_headers=bh, binary_shape=bs, binary_data=bd, boxes_coordinates=bc,
+                                              nofail=bool(bh), verbose=verbose))
+            rec.exe([dh, sub], nontrivial=True, trans=1 + sum(c["n"] for c in ctl.calls))
+            if st == "exc":
+                rec.fail("raised", sub, exc_text(val))
+            elif not bool(val):
+                rec.fail("rejected", sub, "bool(Taster) is False on a well-formed plotfile")
     # the command line entry point: every flag combination must end normally on a well-formed plotfile
     import amr_kitchen.taste.cli as tcli
     from ..common import run_cli
@@ -75,11 +90,11 @@ def run_case(case, workdir):
         if bd and desc["payload"] == "hostile":
             continue
         for nofail in (False, True):
-            argv = ["taste", path, "-v", "0"] + ([] if bh else ["-nh"]) + ([] if bs else ["-ns"]) + (["-bd"] if bd else []) \
+            argv = ["taste", path] + (["-v", "0"] if nofail else []) + ([] if bh else ["-nh"]) + ([] if bs else ["-ns"]) + (["-bd"] if bd else []) \
                 + (["-bc"] if bc else []) + (["-nf"] if nofail else []) + (["-l", str(ref.nlevels - 1)] if bc else [])
             with vpool.controlled():
                 st, val = run_cli(tcli.main, argv)
-            rec.exe([dh, "cli", argv[2:]], nontrivial=True)
+            rec.exe([dh, "cli", argv[2:], nofail], nontrivial=True)
             if st != "ok":
                 rec.fail("cli_rejected", {"argv": argv}, "%s %s" % (st, val))
     # every schedule of every pool call of the full validation (headers + shape + data + coordinates)
